@@ -90,6 +90,14 @@ def _handler_action(h: ast.ExceptHandler, problems: List[str], where: str) -> Tu
     if body and isinstance(body[-1], ast.Raise) and all(isinstance(s, (ast.Assign, ast.AnnAssign, ast.While)) for s in body[:-1]):
         act, a = raised(body[-1])
         return (act, a, "", 0)
+    # clean-up before the raise (round 4: the attachment upload takes the stored file back): statements without any transfer of control
+    # (no raise / return / break / continue anywhere inside them), then the raise every path through the body ends in
+    def no_transfer(s: ast.stmt) -> bool:
+        return isinstance(s, (ast.Assign, ast.AnnAssign, ast.Expr, ast.If)) and not any(
+            isinstance(n, (ast.Raise, ast.Return, ast.Break, ast.Continue, ast.FunctionDef, ast.Lambda, ast.Try)) for n in ast.walk(s))
+    if len(body) >= 2 and isinstance(body[-1], ast.Raise) and all(no_transfer(s) for s in body[:-1]):
+        act, a = raised(body[-1])
+        return (act, a, "", 0)
     problems.append(f"except clause in {where} has an unrecognised body")
     return ("unknown", "", "", 0)
 
